@@ -38,6 +38,9 @@ rule("C12.e", "a duration / rate in main time units is never compared with a pur
               "grid steps", floor=1, props=["C12", "C06"])
 rule("C08.e", "the take right-hand side is value / period length x covered step lengths (time degree 0)", floor=1)
 
+rule("C12.l", "a rate or duration given in main time units is kept as given: the constructor stores the parameter itself - not int(), round(), "
+              "floor() or ceil() of it. Whole numbers in one main time unit are fractions in another (6 h = 0.25 d): rounding before the "
+              "conversion to grid steps makes the result depend on the main time unit", floor=10, props=["C12", "C06"])
 rule("C06.o", "plant / CHP: capacities, ramp, last dispatch, running and start costs are rates - in every bound, restriction and cost term "
               "each meets a step length exactly once (time degree 0; the degree rule C12.a on the CHP classes): 'at most the ramp between "
               "consecutive steps, the first step relative to the last dispatch' is a statement about volumes per step", floor=10)
@@ -65,7 +68,7 @@ rule("C16.l", "scaled asset: what it adds to the cost vector - the fix costs of 
               "units (time degree 0), like every other entry of c; not rate x number of steps", floor=1)
 
 
-@analysis("degrees", ["C12.a", "C02.a", "C02.b", "C12.c", "C19.d", "C08.e", "C12.e", "C20.j", "C12.f", "C12.k", "C12.h", "C12.i", "C16.l", "C06.o"])
+@analysis("degrees", ["C12.a", "C02.a", "C02.b", "C12.c", "C19.d", "C08.e", "C12.e", "C20.j", "C12.f", "C12.k", "C12.h", "C12.i", "C16.l", "C06.o", "C12.l"])
 def run(ctx):
     p = ctx.p
     summaries = {}
@@ -192,7 +195,21 @@ def run(ctx):
                                "a rate is converted with the length of one particular step: on grids whose steps differ in length (DST "
                                "switch, months) the per-step limit is wrong for every other step", node=x)
                     else:
-                        ctx.note("C12.c", fn, au.short(x, 60), "scalar step length used (ramp / last dispatch of CHP): exact only on equidistant grids", node=x)
+                        par = p.parent(x)
+                        other = None
+                        if isinstance(par, ast.BinOp) and isinstance(par.op, ast.Mult):
+                            other = par.right if par.left is x else par.left
+                        first_only = other is not None and au.const_num(x.slice) == 0 and any(
+                            isinstance(y, ast.Attribute) and y.attr.startswith("last_") for y in au.walk_local(other))
+                        if first_only:
+                            ctx.ob("C12.c", fn, au.short(par, 60), True, ok_detail="a quantity that is only compared with the first step meets the first step's length", node=x)
+                        else:
+                            ctx.ob("C12.c", fn, au.short(par if other is not None else x, 60), False,
+                                   "a rate that applies to every step (%s) is converted with the length of the first step only: on grids whose steps differ "
+                                   "in length (daylight-saving switch, an asset grid cut by the horizon) the limit of every other step is wrong - ramp 1 / h "
+                                   "on a daily CET grid starting on the 23 h day allows a change of 23 per day on the 24 h days" % (
+                                       au.short(other, 30) if other is not None else "?"), node=x,
+                                   key="rate for all steps times the first step length: %s" % (au.short(other, 30) if other is not None else au.short(x, 30)))
     anchors = []
     mv = p.fn_opt("Asset.make_vector")
     for fn, pred in ((mv, "vec"), (p.fn_opt("Storage.setup_optim_problem"), "cap"), (p.fn_opt("Transport.setup_optim_problem"), "cap"),
@@ -329,3 +346,26 @@ def run(ctx):
                    "two durations are divided before the value is multiplied in: the quotient is a float (1/300 for seconds on a 5 min grid) that "
                    "is not exactly representable, so whole numbers of steps come out one ulp too large (2100 s -> 7.000000000000001 steps) and "
                    "the caller's ceil() adds a step - the same plant has a minimum runtime of 8 steps in 's' and 7 in 'h'", node=d)
+
+
+    # ================================================================= C12.l dimensioned parameters are stored unrounded
+    ROUNDERS = ("int", "round", "floor", "ceil", "trunc", "rint", "around", "fix")
+    n_l = 0
+    for cname, seeds in sorted(SEEDS.items()):
+        ci = p.classes.get(cname)
+        init = ci.methods.get("__init__") if ci is not None else None
+        if init is None:
+            continue
+        from .serialization import self_attr_writes as _saw
+        for attr, st, val in _saw(init):
+            if attr not in seeds or seeds[attr] == 0 or val is None:
+                continue
+            n_l += 1
+            rc = [c for c in au.walk_local(val) if isinstance(c, ast.Call) and (
+                au.method_name(c) in ROUNDERS or (au.method_name(c) == "astype" and c.args and "int" in au.U(c.args[0])))]
+            ctx.ob("C12.l", init, "self.%s" % attr, not rc,
+                   "%s.%s is a %s in main time units and is stored as %s: a value that is whole in one main time unit is a fraction in another "
+                   "(min_runtime 6 h = 0.25 d is truncated to 0 d, 1.5 h to 1 h) - the same plant runs 12 hours with the main time unit 'h' and 4 "
+                   "with 'd' (value 2300 vs 2780)" % (cname, attr, "duration" if seeds[attr] > 0 else "rate", au.short(val, 40)), node=st,
+                   ok_detail="stored as given")
+    ctx.require(n_l >= 10, "fewer than 10 dimensioned constructor parameters found", rules=["C12.l"])
